@@ -559,7 +559,7 @@ class Screen(BaseScreen, RealTerminal):
 
         def using_standout_or_underline(a: AttrSpec | str) -> bool:
             a = self._pal_attrspec.get(a, a)
-            return isinstance(a, AttrSpec) and (a.standout or a.underline)
+            return isinstance(a, AttrSpec) and (a.standout or a.underline or a.strikethrough)
 
         encoding = util.get_encoding()
 
